@@ -64,14 +64,13 @@ Lemma ccore_decl_pairs en flv slv reg (l : list (list N * loc * bool)) :
   ccore (map (fun x => decl_occ en flv slv reg (snd x) (fst x)) l) = [].
 Proof. induction l as [|x r IH]; [reflexivity|]. cbn. exact IH. Qed.
 
-(* the class tags of the initialisers (CB1 only) do not touch the cores *)
+(* the initialisers carry no class tag of their own (since fixes/C05-own-initialiser.diff) *)
 Lemma ccore_local_inits en ns (f : exp -> list socc) : forall es k,
   ccore (concat (index_map (fun i eo => tag_local_init en ns i (fst eo) (snd eo)) k (map (fun e => (e, f e)) es)))
   = ccore (flat_map f es).
 Proof.
   induction es as [|e r IH]; intros k; [reflexivity|].
-  cbn [map index_map concat flat_map fst snd]. rewrite !ccore_app, IH. f_equal.
-  unfold tag_local_init. apply ccore_tag_if. discriminate.
+  cbn [map index_map concat flat_map fst snd]. rewrite !ccore_app, IH. reflexivity.
 Qed.
 
 (* ------------------------------------------------------------------ the loop *)
@@ -79,11 +78,11 @@ Section LocalLoop.
   Variables (flv slv : Z) (reg : loc).
 
   (* names beyond the initialisers *)
-  Lemma local_rest_sim lc rest : forall ns_r ls_r st top (lastc : refexp),
+  Lemma local_rest_sim lc (il : option loc) rest : forall ns_r ls_r st top (lastc : refexp),
     ((match lastc with RNone => true | _ => false end) = true -> negb lc = true) ->
     FRS st (top :: rest) ->
-    let st' := fold_left (fun s nl => add_var (mkV (fst nl) (snd nl) lastc
-                                                   (match lastc with RNone => true | _ => false end)) s)
+    let st' := fold_left (fun s nl => add_var (mkV5 (fst nl) (snd nl) lastc
+                                                    (match lastc with RNone => true | _ => false end) il None) s)
                          (combine ns_r ls_r) st in
     t_occs st' = t_occs st /\
     FRS st' ((rev (combine (combine ns_r ls_r) (le_rec ns_r [] lc)) ++ top) :: rest).
@@ -92,7 +91,7 @@ Section LocalLoop.
     - split; [reflexivity|exact Hfr].
     - destruct ls_r as [|l0 ls']; [split; [reflexivity|exact Hfr]|].
       cbn [combine fold_left le_rec rev].
-      set (v := mkV (fst (n, l0)) (snd (n, l0)) lastc (match lastc with RNone => true | _ => false end)).
+      set (v := mkV5 (fst (n, l0)) (snd (n, l0)) lastc (match lastc with RNone => true | _ => false end) il None).
       assert (Hv : VR v ((n, l0), negb lc)) by (repeat split; cbn; auto).
       destruct (IH ls' (add_var v st) (((n, l0), negb lc) :: top) lastc Hl (FRS_add _ _ _ _ _ Hv Hfr)) as [H1 H2].
       split.
@@ -102,24 +101,24 @@ Section LocalLoop.
 
   (* the names are added after all the initialisers were visited: no occurrence is logged, the innermost frame gets
      the declarations with the flags of local_empties *)
-  Lemma local_adds_sim (es : list exp) (lc : bool) rest :
+  Lemma local_adds_sim (es : list exp) (lc : bool) (il : option loc) rest :
     lc = match rev es with ECall _ _ _ _ :: _ => true | _ => false end ->
     forall es_r ns_r ls_r pre st top lastc,
     es = pre ++ es_r -> length ns_r = length ls_r -> (length es_r <= length ns_r)%nat ->
     (es_r = [] -> lc = true -> lastc <> RNone) ->
     FRS st (top :: rest) ->
-    t_occs (local_adds es_r (combine ns_r ls_r) lastc st) = t_occs st /\
-    FRS (local_adds es_r (combine ns_r ls_r) lastc st)
+    t_occs (local_adds es_r (combine ns_r ls_r) lastc il st) = t_occs st /\
+    FRS (local_adds es_r (combine ns_r ls_r) lastc il st)
         ((rev (combine (combine ns_r ls_r) (le_rec ns_r es_r lc)) ++ top) :: rest).
   Proof.
     intros Hlc. induction es_r as [|e es' IH]; intros ns_r ls_r pre st top lastc Hes Hlen Hle Hlast Hfr.
-    - cbn [local_adds]. apply (local_rest_sim lc rest ns_r ls_r st top lastc); [|exact Hfr].
+    - cbn [local_adds]. apply (local_rest_sim lc il rest ns_r ls_r st top lastc); [|exact Hfr].
       intros Hr. destruct lc; [|reflexivity]. exfalso. apply (Hlast eq_refl eq_refl).
       destruct lastc; [reflexivity|discriminate..].
     - destruct ns_r as [|n ns']; [cbn in Hle; lia|].
       destruct ls_r as [|l0 ls']; [discriminate|].
       cbn [combine local_adds le_rec rev].
-      set (v := mkV n l0 (ref_of_exp e) (refer_empty n e)).
+      set (v := mkV5 n l0 (ref_of_exp e) (refer_empty n e) il (tab_of_exp e)).
       assert (Hv : VR v ((n, l0), refer_empty n e)) by (repeat split; cbn; auto).
       destruct (IH ns' ls' (pre ++ [e]) (add_var v st) (((n, l0), refer_empty n e) :: top)
                    (match e with ECall _ _ _ _ => ref_of_exp e | _ => RNone end)) as [H1 H2].
@@ -145,13 +144,14 @@ Section LocalLoop.
     pose proof (SimE_list (fun e => tr_exp flv e) (fun e nm => cl_exp nm flv e) (fun e en => b_exp flv slv reg e en)
                           es Hsim) as HL.
     destruct (HL st (seg :: rest) en Exc Hfr ltac:(discriminate) Heq) as [news [cs [A1 [A2 [A3 A4]]]]].
-    destruct (local_adds_sim es lc rest eq_refl es ns ls [] (apply_all (map (fun e => tr_exp flv e) es) st) seg RNone
-                             eq_refl Hlen Hle) as [B1 B2].
+    destruct (local_adds_sim es lc (init_loc ns ls es l) rest eq_refl es ns ls []
+                             (apply_all (map (fun e => tr_exp flv e) es) st) seg RNone eq_refl Hlen Hle) as [B1 B2].
     - intros He Hl. subst es. discriminate.
     - exact A2.
     - exists news, cs, (rev (combine (combine ns ls) (le_rec ns es lc)) ++ seg).
       cbn [tr_stat b_stat cl_stat fst snd].
-      pose proof (local_loop_shape (fun e => tr_exp flv e) es (combine ns ls) RNone st Hlec) as Eloop. cbv beta in Eloop.
+      pose proof (local_loop_shape (fun e => tr_exp flv e) es (combine ns ls) RNone (init_loc ns ls es l) st Hlec) as Eloop.
+      cbv beta in Eloop.
       unfold tT in Eloop. rewrite Eloop. repeat split.
       + rewrite B1. exact A1.
       + exact B2.
